@@ -26,15 +26,19 @@ Section S.
 Context {A : Type} (F : Fl A) (r32 : A -> A).
 
 (* func (a *Real64) Clone() *Real64 { r := NewReal64(0.0); r.Set(a); return r }   into the fresh id c *)
-Definition clone_reg (c a : nat) (s : @St A) : res (@St A) :=
-  set_reg F r32 c (Rg a) (upd s c (null_reg F (rk (s a)))).
+Definition conv_reg (k : kind) (c a : nat) (s : @St A) : res (@St A) :=
+  set_reg F r32 c (Rg a) (upd s c (null_reg F k)).
+Definition clone_reg (c a : nat) (s : @St A) : res (@St A) := conv_reg (rk (s a)) c a s.
 
-(* result[i] = v[i].Clone(), i ascending, fresh ids c, c+1, ... *)
-Fixpoint clone_list (ids : list nat) (c : nat) (s : @St A) : res (@St A) :=
+(* result[i] = v[i].Clone(), i ascending, fresh ids c, c+1, ...   (kf = rk: Clone keeps the type of each element)
+   AsDenseRealXVector(v) for a v of ANOTHER type:  r := NullDenseRealXVector(n); r.AT(i).Set(v.ConstAt(i))
+   (kf = fun _ => k: every new element has the target type) *)
+Fixpoint conv_list (kf : Reg A -> kind) (ids : list nat) (c : nat) (s : @St A) : res (@St A) :=
   match ids with
   | [] => Ok s
-  | a :: r => bind (clone_reg c a s) (clone_list r (S c))
+  | a :: r => bind (conv_reg (kf (s a)) c a s) (conv_list kf r (S c))
   end.
+Definition clone_list := conv_list (@rk A).
 
 (* NewReal64(v) / NewReal32(float32(v)) into id c *)
 Definition new_reg (k : kind) (v : A) : Reg A := mkReg k (rndk r32 k v) 0 0 [] [].
@@ -50,6 +54,7 @@ Definition getv (w : SW) (t : nat) : list nat := nth t (w_vecs w) [].
 Inductive sop :=
 | SNew (k : kind) (vals : list A)        (* NewDenseReal64Vector(values) (a scalar is a vector of length 1) *)
 | SClone (t : nat)                       (* v.Clone() = v.CloneVector() = AsDenseReal64Vector(v) *)
+| SConv (k : kind) (t : nat)             (* AsDenseReal64Vector / AsDenseReal32Vector of a vector of the OTHER type: a copy by construction *)
 | SSlice (t i j : nat)                   (* v.Slice(i,j) = v[i:j], i <= j <= len: SHARES the elements *)
 | SAppend (t u : nat)                    (* v.AppendVector(w) = append(v, w...) with cap(v) = len(v): shares the elements of both *)
 | SIns (i : instr A)                     (* one scalar operation of C01's table on element objects *)
@@ -99,6 +104,9 @@ Definition sstep (w : SW) (o : sop) : res SW :=
   | SClone t =>
       let v := getv w t in
       bind (clone_list v (w_next w) (w_st w)) (fun s => Ok (addv w s (length v) (seq (w_next w) (length v))))
+  | SConv k t =>
+      let v := getv w t in
+      bind (conv_list (fun _ => k) v (w_next w) (w_st w)) (fun s => Ok (addv w s (length v) (seq (w_next w) (length v))))
   | SSlice t i j =>
       let v := getv w t in
       if (i <=? j) && (j <=? length v) then Ok (addv w (w_st w) 0 (firstn (j - i) (skipn i v))) else Panic EIndex
@@ -144,7 +152,7 @@ Definition reads (i : instr A) : list nat :=
 Definition swrites (w : SW) (o : sop) : list nat :=
   match o with
   | SNew _ vals => seq (w_next w) (length vals)
-  | SClone t => seq (w_next w) (length (getv w t))
+  | SClone t | SConv _ t => seq (w_next w) (length (getv w t))
   | SSlice _ _ _ | SAppend _ _ => []
   | SIns i => writes i
   | SVec2 _ r _ _ | SVecS _ r _ _ | SVSet r _ | SVReset r => getv w r
